@@ -4,9 +4,11 @@ of the k-mer, what triple is returned), index identity (left index keyed by firs
 node ids), find_edges (one edge per extension base whose probe resolves; probes built from the right end in the right
 direction), the pruning tables of get_valid_exts / remove_censored_exts / remove_censored_exts_sharded (an extension is
 removed exactly when its target is absent or censored; neighbour canonicalised exactly when unstranded), fix_exts
-lockstep, the best-path walk never repeats a node, and sequence_of_path spells nodes with a K-1 overlap in the given
-orientation."""
-from .. import dt_graph, dt_compress
+lockstep, the best-path walk never repeats a node, sequence_of_path spells nodes with a K-1 overlap in the given
+orientation; and for graphs produced by compression: the node builders' terminal-extension tables (taken from the last
+path k-mer / node, complemented when traversed flipped) and the complete step tables of both routes (a node that absorbs a
+palindrome or a branch has an edge with no way back)."""
+from .. import dt_graph, dt_compress, dt_tables
 
 ASSUMPTIONS = ["that the set of resolvable edges equals the input's (K+1)-mers is a data-dependent fact not decided here"]
 
@@ -22,3 +24,8 @@ def run(F, rep):
     dt_graph.max_path_table(F, rep, "C03.7")
     dt_graph.beam_expand_table(F, rep, "C03.7")
     dt_graph.sequence_of_path_table(F, rep, "C03.8")
+    # edge symmetry of graphs produced by (re)compression: terminal extensions of built nodes and the step rule of both routes
+    dt_compress.hash_builder_table(F, rep, "C03.6")
+    dt_compress.graph_builder_table(F, rep, "C03.6")
+    dt_tables.hash_step_table(F, rep, "C03.6")
+    dt_tables.graph_step_table(F, rep, "C03.6")
